@@ -145,4 +145,38 @@ structure Proc where
 
 instance : GoZero Proc := ⟨⟨false⟩⟩
 
+/-! ### The printer (`lib/syntax/printer`): `fmt.Fprintf` with widths, `strings.Join`, `utf8.RuneCountInString`, `io.Writer` -/
+
+/-- `utf8.RuneCountInString`: the number of decoding steps (an invalid byte counts as one rune) -/
+def RuneCountInString (s : GoString) : Int := ((decodeAll s).length : Int)
+
+namespace Fmt
+/-- `fmt`'s `writePadding(n)`: `n` spaces, nothing for `n ≤ 0` -/
+def pad (n : Int) : GoString := List.replicate n.toNat 0x20
+/-- `%Ns` (`minus = false`: padded on the left) and `%-Ns` (`minus = true`: padded on the right) of a string, for a width `N ≥ 0`
+written in the format: `fmt.padString` pads to `N` **runes** (`N - utf8.RuneCountInString(s)` spaces; none when the string is longer) -/
+def sW (minus : Bool) (wid : Int) (x : GoString) : GoString :=
+  if minus then x ++ pad (wid - RuneCountInString x) else pad (wid - RuneCountInString x) ++ x
+/-- `%*s` / `%-*s`: the width is an `int` operand.  `fmt` (print.go, `intFromArg`/`tooLarge`) rejects a width above `10^6` in magnitude:
+it prints `%!(BADWIDTH)` and formats the operand without a width; a negative width means left-justify with its absolute value. -/
+def sStar (minus : Bool) (wid : Int) (x : GoString) : GoString :=
+  if wid > 1000000 ∨ wid < -1000000 then lit "%!(BADWIDTH)" ++ x
+  else if wid < 0 then sW true (-wid) x else sW minus wid x
+end Fmt
+
+namespace Strings
+/-- `strings.Join(elems, sep)` -/
+def Join : List GoString → GoString → GoString
+  | [], _ => []
+  | [a], _ => a
+  | a :: b :: rest, sep => a ++ sep ++ Join (b :: rest) sep
+end Strings
+
+/-- an `io.Writer`: the **bytes written so far**.  This is an in-memory buffer (`bytes.Buffer`, which `formatFile` and `infer` hand to
+`syntax.FormatFile`): `Write` takes every byte and never fails.  Write errors of other writers are not modelled. -/
+abbrev Writer := GoString
+
+/-- `w.Write(bs)`: the new state of the writer, `len(bs)`, and the nil error (`nilErr`: the `nil` of the translated error type) -/
+def Writer.Write {ε : Type} (w : Writer) (bs : GoString) (nilErr : ε) : Writer × Int × ε := (w ++ bs, (bs.length : Int), nilErr)
+
 end Knut.GoSem.Syn
